@@ -348,6 +348,19 @@ func (eng *Engine) runTop(c *FnCtx, fn *ssa.Function, fs *FuncSpec) {
 	c.ghostBlk = map[string]*ssa.BasicBlock{}
 	for _, l := range fs.Lets {
 		ghosts[l.Name] = c.freshVal("let_"+l.Name, eng.resolveType(env.pkg, l.Type))
+		if l.Default != nil {
+			// the value on paths that do not pass the call site
+			d := env.eval(l.Default)
+			if id, ok := l.Default.(*ast.Ident); ok && id.Name == "nil" {
+				d = zeroVal(ghosts[l.Name].T)
+			}
+			if len(d.L) == len(ghosts[l.Name].L) {
+				d.T = ghosts[l.Name].T
+				ghosts[l.Name] = d
+			} else {
+				panic(specErr("let %s: the default does not have the ghost's type", l.Name))
+			}
+		}
 		c.ghosts0[l.Name] = ghosts[l.Name]
 	}
 	c.ghosts = ghosts
